@@ -358,6 +358,8 @@ class Gen:
             return None
         h = self.new_h()
         spell = spell or self.choice(od.spellings)
+        if constant is None and self.cfg.get("const_flags") and view_src is None and "out_arr" not in extra and od.spellings != ("o",):
+            constant = self.rand_op_const()  # every operation takes constant=, in every spelling that has keywords
         ev = {"k": "op", "op": op, "out": h, "args": refs, "p": p, "spell": spell}
         if constant is not None and not (constant is False and out.dtype.kind != "f") and op != "getitem":
             ev["constant"] = constant
